@@ -225,7 +225,45 @@ func VerifC09NonASCIISpellings() {
 	}
 }
 
+// VerifC09DomainConfigured: domain normalisation does not depend on how the parser was configured, as long
+// as the scheme is special for it: a scheme added with WithSpecialSchemes (short, or longer than every
+// built-in one) normalises its host exactly like http does, and identity pre-/post-parse-host hooks change
+// nothing. W over every ASCII byte except the host delimiters, and the concrete non-ASCII hosts.
+func VerifC09DomainConfigured() {
+	var w string
+	if vnd.Bool() {
+		w = vnd.StrOver(vnd.Len(vnd.Param("C09.KConfigured", 2, 3)), asciiHostBytes())
+	} else {
+		w = nonASCIIHosts[vnd.Pick(len(nonASCIIHosts))]
+	}
+	d, derr := Parse("http://" + w + "/")
+	var u *Url
+	var err error
+	switch vnd.Pick(4) {
+	case 0:
+		p := NewParser(WithSpecialSchemes(map[string]string{"ftp": "21", "file": "", "http": "80", "https": "443", "ws": "80", "wss": "443", "gopher": "70", "g": "7", "coffeepot": "80"}))
+		scheme := []string{"gopher", "g", "coffeepot"}[vnd.Pick(3)]
+		u, err = p.Parse(scheme + "://" + w + "/")
+	case 1:
+		u, err = NewParser(WithPostParseHostFunc(func(_ *Url, h string) string { return h })).Parse("http://" + w + "/")
+	case 2:
+		u, err = NewParser(WithPreParseHostFunc(func(_ *Url, h string) string { return h })).Parse("http://" + w + "/")
+	case 3:
+		u, err = NewParser(WithPreParseHostFunc(func(_ *Url, h string) string { return h }), WithPostParseHostFunc(func(_ *Url, h string) string { return h })).Parse("https://" + w + "/")
+	}
+	vnd.Cover("configured-domain", err == nil)
+	if (err != nil) != (derr != nil) {
+		vnd.Fail("the same host is accepted under one parser configuration and rejected under another")
+	}
+	if err == nil && u.Hostname() != d.Hostname() {
+		vnd.Observe("default", d.Hostname())
+		vnd.Observe("configured", u.Hostname())
+		vnd.Fail("the normalised host depends on the parser configuration (added special scheme / identity host hooks)")
+	}
+}
+
 func init() {
+	verifHarnesses["VerifC09DomainConfigured"] = VerifC09DomainConfigured
 	verifHarnesses["VerifC09DomainAscii"] = VerifC09DomainAscii
 	verifHarnesses["VerifC09DomainCase"] = VerifC09DomainCase
 	verifHarnesses["VerifC09DomainEscapes"] = VerifC09DomainEscapes
